@@ -11,7 +11,7 @@
 (***************************************************************************)
 EXTENDS TransmitterOps
 
-CONSTANTS Grid, Cand, Mandatory, MaxOpt, Lats, Folds, Modes, Delays, EpLens, Spaces, Bads, DayLen, MaxCalls, ResetAnywhere,
+CONSTANTS Grid, Cand, Mandatory, MaxOpt, Lats, Folds, Modes, Delays, EpLens, ResetLens, Spaces, Bads, DayLen, MaxCalls, ResetAnywhere,
           ClockRule, HistoryOrder, NullRule,
           Cuts          \* set of cut times
 
